@@ -163,6 +163,12 @@ def enum_units(tier, seed):
                 body = [{"k": "block", "b": body}]
             extra.append([{"k": "const", "n": "kx_w", "e": L(2), "eager": True}, org, me, {"k": "block", "b": body + [db(L(0x5A)), lab("kx_w"), db(L(0x5B))]}, dl("kx_w")])
             extra.append([{"k": "const", "n": "kx_w", "e": L(2), "eager": True}, org, me, {"k": "block", "b": body + [db(L(0x5A)), {"k": "const", "n": "kx_w", "e": L(0x4321), "eager": False}]}, dl("kx_w")])
+    # names that differ only in letter case are different names (an inner LB_LOOP does not capture a reference to the outer lb_loop)
+    extra.append([{"k": "const", "n": "kx_v", "e": L(9), "eager": True}, {"k": "const", "n": "i_0", "e": L(0x77), "eager": True}, org, lab("lb_loop"), db(L(1)),
+                  {"k": "block", "b": [lab("LB_LOOP"), db(L(2)), dl("lb_loop", "LB_LOOP"), lab("Lb_Loop"), dl("Lb_Loop")]},
+                  {"k": "scope", "n": "sc_u", "b": [{"k": "const", "n": "Kx_v", "e": L(5), "eager": True}, db(["id", "kx_v"], ["id", "Kx_v"]), {"k": "const", "n": "KX_V", "e": L(0x1234), "eager": False}, dl("KX_V", "kx_v")]},
+                  {"k": "macro", "n": "m_u", "ps": ["Kx_v"], "b": [db(["id", "kx_v"], ["id", "Kx_v"])]}, {"k": "call", "n": "m_u", "args": [L(3)]},
+                  {"k": "for", "v": "I_0", "lo": L(1), "hi": L(3), "b": [db(["id", "i_0"], ["id", "I_0"])]}, dl("sc_u.Kx_v", "lb_loop")])
     for i, ir in enumerate(extra):
         cases.append({"rom": "low", "files": {}, "ir": ir, "twin_seed": 100 + i})
     return {"units": [{"cases": cases[i::8]} for i in range(8)], "exhaustive": False}
